@@ -36,7 +36,7 @@ Definition juid (u : uid) : jv := JS (render u).
      [ locs, elements, connections ]
      loc        [city|null, region|null, lat, lon]            distinct locations, referred to by index
      element    [uid, loc index, kind, payload...]
-                "T" | "R",variety|null,[pre,boo]|null,[[uid,q]..]|null | "F",true|false
+                "T" | "R",variety|null,[pre,boo]|null,[[uid,q]..]|null,[[from,to,id]..]|null | "F",true|false
                 | "B",variety,length,loss_coef,con_in|null,con_out|null,pmd_coef_sq|null | "A" | "E",variety|null,[g,dp,tilt,out,in]
      connection [i, j]  positions of the first elements carrying the two uids (the uid itself when there is none)
    rationals are [num, den]. *)
@@ -63,10 +63,13 @@ Definition oper_json (o : oper) : jv :=
 Definition content_json (c : content) : list jv :=
   match c with
   | CTrx => [JS "T"]
-  | CRoadm v r p =>
+  | CRoadm v r p im =>
       [JS "R"; jos v;
        match r with Some (pre, boo) => JA [JA (map JS pre); JA (map JS boo)] | None => JNull end;
-       match p with Some l => JA (map (fun kv => JA [juid (fst kv); jq (snd kv)]) l) | None => JNull end]
+       match p with Some l => JA (map (fun kv => JA [juid (fst kv); jq (snd kv)]) l) | None => JNull end;
+       match im with
+       | Some l => JA (map (fun t => JA [juid (fst (fst t)); juid (snd (fst t)); JN (snd t)]) l)
+       | None => JNull end]
   | CFused l0 => [JS "F"; JB l0]
   | CFiber v len lc ci co p2 => [JS "B"; JS v; jq len; jq lc; joq ci; joq co; joq p2]
   | CEdfaAuto => [JS "A"]
@@ -121,3 +124,20 @@ Definition ER := mkEqptRow.
 Definition RR := mkRoadmRow.
 Definition QR := mkReqRow.
 Definition W := mkRows.
+
+(* ---- header recognition: which column is read as which field ---- *)
+Definition sheet_spec (k : Z) : hdict * (nat * nat * nat) :=
+  if Z.eqb k 0 then (node_headers, nodes_layout)
+  else if Z.eqb k 1 then (link_headers, links_layout)
+  else if Z.eqb k 2 then (eqpt_headers, eqpts_layout)
+  else if Z.eqb k 3 then (roadm_headers, roadms_layout)
+  else (service_headers, service_layout).
+Definition hdr_case (k : Z) (g : grid) : string :=
+  let '(d, (line, _, ncol)) := sheet_spec k in
+  match parse_headers g d [] line 0 ncol with
+  | Ok hd => jrender (JA (map (fun p => JA [JN (Z.of_nat (fst p)); JS (snd p)]) hd))
+  | Err e => "E:" +s e
+  end.
+Definition E := CEmpty.
+Definition T := CStr.
+Definition N := CNum.
